@@ -175,6 +175,22 @@ func c15Run(c *runner.Ctx) {
 					break
 				}
 			}
+			it.Close()
+			// a list read without exclusions whose iterator is handed a caller-owned bitmap as its "actual" set, used and closed
+			if pl2, err := d.PostingsList([]byte(t), nil, nil); err == nil {
+				if one, _, _ := ice.VerifPostingsInfo(pl2); !one {
+					if it2, err := pl2.Iterator(false, false, false, nil); err == nil {
+						if opt, isOpt := it2.(segment.OptimizablePostingsIterator); isOpt && opt.ActualBitmap() != nil {
+							sub := opt.ActualBitmap().Clone()
+							bms = append(bms, snapBM(sub, "bitmap handed to ReplaceActual"))
+							opt.ReplaceActual(sub)
+							it2.Next()
+							it2.Close()
+							c.Inc("ops.replace_actual_then_close", 1)
+						}
+					}
+				}
+			}
 			log = append(log, fmt.Sprintf("postings(seg%d,%q,%q,except)", si, f, t))
 			c.Inc("ops.postings_with_exclusion", 1)
 		case op < 7: // DocsMatchingTerms, then mutate the RETURNED bitmap (it belongs to the caller)
